@@ -28,6 +28,7 @@ type c17Case struct {
 	Fns     []string `json:"fns"`
 	Inputs  []string `json:"inputs"`
 	Choices []int    `json:"choices,omitempty"`
+	Limits  int      `json:"limits,omitempty"` // sched / race: element limits configured for the scenario (cmd/vc17)
 }
 
 // c17LiveCase is one query / in-place change / query history of part (A3).
@@ -40,7 +41,7 @@ type c17LiveCase struct {
 func init() {
 	engine.Register(&engine.Check{
 		ID: "C17", Level: "model_checking",
-		Rule:   "registry F of exported non-mutating functions (measures, bounds, accessors, clone, hull, centroids, ring predicates, point location, distances, angles, simplification, orientation, intersectors, all encoders and decoders incl. hex/SQL/KML/IGC) x shared inputs (geometries of every kind in four layouts with non-round coordinates, near-collinear and >50-point inputs, collections, coordinate tuples, encodings). (A) every f x input: bitwise snapshot of all argument storage incl. spare capacity and a generated dump of every package-level variable before/after (after one call on another input, so that a table built once on first use is not mistaken for mutable state), second call equals first. (B) every unordered pair (f,g) on a shared input and every f on pairs of distinct inputs, as 2 threads (thorough: also a 3-thread scenario) under a cooperative scheduler: ALL interleavings with <=2 (thorough 3) preemptions at the scheduling points that an AST pass inserts - from the current sources - before every statement of every function that mentions a package-level variable with a write site; each call must return its solo result, arguments and globals unchanged. (C) the same scenarios free-running x4 under the race detector. states = scheduling points visited, transitions = schedules executed Also: (A1b) every coordinate-taking function on every 4-tuple of the 3x3 grid, overflow-scaled and nearly coincident tuples; (A2) two-call histories for every ordered pair (f,g): the live results of f are kept, g runs twice, the kept values are rendered again; then the kept values are overwritten by the 'caller' and g must still return its solo result (solo results taken before any overwrite); (A3) f(g), one in-place operation on g, f(g) again must equal f on a freshly built geometry; (B) and (C) render the kept result before and after a scheduling point; inputs include non-canonical spellings (lower/mixed case, re-spaced WKT, upper-case hex). Round 7: Marshal/Encode with package-level option lists shared by all calls. Round 8: bulk coordinate tuples with NaN third ordinates in one segment / at one end of each. Round 9: hex text (as bytes) handed to the binary Unmarshal and Scan entry points; polygons with a ring without positions after a ring with positions. Round 10: an IGC track with positions and altitudes out of range. Round 11: the accessor entry pushes a ring numbered per call into every polygon handed out for a ring-less multipolygon member.",
+		Rule:   "registry F of exported non-mutating functions (measures, bounds, accessors, clone, hull, centroids, ring predicates, point location, distances, angles, simplification, orientation, intersectors, all encoders and decoders incl. hex/SQL/KML/IGC) x shared inputs (geometries of every kind in four layouts with non-round coordinates, near-collinear and >50-point inputs, collections, coordinate tuples, encodings). (A) every f x input: bitwise snapshot of all argument storage incl. spare capacity and a generated dump of every package-level variable before/after (after one call on another input, so that a table built once on first use is not mistaken for mutable state), second call equals first. (B) every unordered pair (f,g) on a shared input and every f on pairs of distinct inputs, as 2 threads (thorough: also a 3-thread scenario) under a cooperative scheduler: ALL interleavings with <=2 (thorough 3) preemptions at the scheduling points that an AST pass inserts - from the current sources - before every statement of every function that mentions a package-level variable with a write site; each call must return its solo result, arguments and globals unchanged. (C) the same scenarios free-running x4 under the race detector. states = scheduling points visited, transitions = schedules executed Also: (A1b) every coordinate-taking function on every 4-tuple of the 3x3 grid, overflow-scaled and nearly coincident tuples; (A2) two-call histories for every ordered pair (f,g): the live results of f are kept, g runs twice, the kept values are rendered again; then the kept values are overwritten by the 'caller' and g must still return its solo result (solo results taken before any overwrite); (A3) f(g), one in-place operation on g, f(g) again must equal f on a freshly built geometry; (B) and (C) render the kept result before and after a scheduling point; inputs include non-canonical spellings (lower/mixed case, re-spaced WKT, upper-case hex). Round 7: Marshal/Encode with package-level option lists shared by all calls. Round 8: bulk coordinate tuples with NaN third ordinates in one segment / at one end of each. Round 9: hex text (as bytes) handed to the binary Unmarshal and Scan entry points; polygons with a ring without positions after a ring with positions. Round 10: an IGC track with positions and altitudes out of range. Round 11: the accessor entry pushes a ring numbered per call into every polygon handed out for a ring-less multipolygon member. Round 12: coordinate tuples spanning 400 decades; every scenario of two binary decoders again with element limits {0,4,4,4} configured before the calls (scheduler exploration and race pass).",
 		Run:    c17Run,
 		Replay: c17Replay,
 		Assumptions: []string{
